@@ -137,7 +137,10 @@ func (s *State) writeMem() {
 		if strings.Contains(out, "Overwrite the previous NVRAM configuration") {
 			out = s.Conn.GetCmdOutput("")
 		}
-		if strings.Contains(out, "[OK]") {
+		// IOS shows "[OK]" even if config was too large for NVRAM:
+		// "%Aborting Save. Compress the config.[OK]"
+		if strings.Contains(out, "[OK]") &&
+			!strings.Contains(out, "Aborting Save") {
 			return
 		}
 		if strings.Contains(out, "startup-config file open failed") {
